@@ -102,6 +102,16 @@ class WsMock:
                     snap = None
                 self.attest_snapshots.append((guid, snap))
             f = self._take_fault("attest")
+            if f and f.get("kind") == "latch-then-lose-response":
+                # the host processes the attestation but the response never reaches the guest
+                verdict, detail = sig.verify(req, self.issued)
+                if verdict in ("ok", "ok-lenient") and detail[0] == guid.lower():
+                    self.latched = guid
+                    self.latched_history.append(guid)
+                    self.log.append((now, "attest", "%s ok (response lost)" % guid))
+                else:
+                    self.log.append((now, "attest", "%s %s (response lost)" % (guid, verdict)))
+                return {"reset": True}
             if f:
                 self.log.append((now, "attest", "fault " + guid))
                 return self._apply_fault(f)
